@@ -185,7 +185,12 @@ def gen_case(rng, pid, tier):
         if expected and rng.random() < 0.04:
             expected.append(expected[0])
         fault = _fault(rng, 3) if rng.random() < 0.45 else None
-        ops.append(['sync', rng.random() < 0.5, expected, fault])
+        if rng.random() < 0.15:
+            # the event manager (re)starts over the surviving cache: the real `run()` decides what is
+            # synchronised and how (the children watch fires with the placed instances)
+            ops.append(['run', rng.random() < 0.8])
+        else:
+            ops.append(['sync', rng.random() < 0.5, expected, fault])
     return {'ops': ops}
 
 
@@ -287,6 +292,8 @@ class _Runner:
         self.vct = {}       # entry name -> virtual ctime
         self.ino = {}       # entry name -> inode the virtual ctime belongs to
         self.flags = {'full': False, 'hit': False, 'refresh': False}
+        self.real_synchronize = eventmgr.EventMgr._synchronize          # pylint: disable=protected-access
+        self.real_notify = eventmgr.EventMgr._cache_notify              # pylint: disable=protected-access
 
     # ---- file system observation ---------------------------------------------------------
     def parse(self, path):
@@ -439,9 +446,90 @@ class _Runner:
                 run.tags.add('notify')
             elif k == 'sync':
                 self.sync(op)
+            elif k == 'run':
+                self.run_glue(bool(op[1]))
         run.nontrivial = self.flags['full'] and (self.flags['hit'] or self.flags['refresh'])
 
-    def sync(self, op):
+    def run_glue(self, presence):
+        """The service (re)starts: the real `EventMgr.run(once=True)` on a zk client that fires its watches at
+        registration, as kazoo does.  Its calls of `_synchronize` / `_cache_notify` go through the same
+        bookkeeping as the `sync` / `notify` steps (one driver line each, in call order)."""
+        run = self.run_
+        z = self.z
+        runner = self
+        self.run_.tags.add('run-glue')
+
+        class _Ev(object):
+            def __init__(self):
+                self.flag = False
+
+            def set(self):
+                self.flag = True
+
+            def clear(self):
+                self.flag = False
+
+            def is_set(self):
+                return self.flag
+
+        class _Handler(object):
+            @staticmethod
+            def event_object():
+                return _Ev()
+
+        class _Zk(object):
+            handler = _Handler()
+
+            def add_listener(self, _f):
+                pass
+
+            def DataWatch(self, path):                      # pylint: disable=invalid-name
+                def deco(func):
+                    if presence:
+                        func(b'{}', mock.Mock(), None)
+                    else:
+                        func(None, None, None)
+                    return func
+                return deco
+
+            def ChildrenWatch(self, path, func):            # pylint: disable=invalid-name
+                func(runner.zk.get_children(path))
+
+            def exists(self, path, watch=None):
+                # the placement node of the host exists as soon as it has (or had) children; the harness keeps
+                # it present always (an empty placement is a legal state)
+                return True
+
+            def get(self, path, watch=None):
+                return runner.zk.get(path, watch)
+
+        first = [True]
+
+        def sync_w(_em, _zkclient, expected, check_existing=False):
+            # the model is told what a start-up synchronisation is: the first one after a (re)start checks the
+            # entries that already exist (`check_existing=not placement_ready.is_set()`); the real call runs
+            # with whatever the real glue passed
+            spec = True if first[0] else bool(check_existing)
+            first[0] = False
+            runner.sync(['sync', bool(check_existing), list(expected), None], spec_check=spec)
+
+        def notify_w(em_, ready):
+            runner.real_notify(em_, ready)
+            ent = runner.snapshot()
+            runner.settle(ent)
+            run.op('notify %d %d' % (1 if ready else 0, runner.now), runner.listing(ent))
+
+        ctx = mock.Mock()
+        ctx.GLOBAL.zk.conn = _Zk()
+        self.em.tm_env.watchdogs = mock.Mock()
+        with mock.patch.object(self.eventmgr, 'context', ctx), \
+                mock.patch.object(self.eventmgr.time, 'sleep', lambda _s: None), \
+                mock.patch.object(self.eventmgr.utils, 'exit_on_unhandled', lambda f: f), \
+                mock.patch.object(self.eventmgr.EventMgr, '_synchronize', sync_w), \
+                mock.patch.object(self.eventmgr.EventMgr, '_cache_notify', notify_w):
+            self.em.run(once=True)
+
+    def sync(self, op, spec_check=None):
         run = self.run_
         _, check, expected, fault = op
         check = bool(check)
@@ -577,7 +665,7 @@ class _Runner:
                     mock.patch('treadmill.fs.write_safe', write_safe_w), \
                     mock.patch.object(self.eventmgr.EventMgr, '_cache', cache_w):
                 try:
-                    self.em._synchronize(self.zk, list(expected), check_existing=check)
+                    self.real_synchronize(self.em, self.zk, list(expected), check_existing=check)
                 except Crash:
                     outcome = 'crash'
                 except Boom:
@@ -609,8 +697,11 @@ class _Runner:
         full_existing = rec_existing + sorted((exp & set(vis_before)) - set(rec_existing)) if check else []
         fired = fault is not None and arm['fired']
         fstr = '%s:%s:%d' % (arm['app'], kind, step) if fired else 'none'
+        if spec_check is not None and spec_check != check:
+            run.tags.add('startup-sync-without-check')
+            full_existing = sorted(exp & set(vis_before))
         line = 'sync %d %d %s %s %s %s %s %s' % (
-            1 if check else 0, self.now, _csv(list(expected)), _csv(extras), _csv(full_missing),
+            1 if (check if spec_check is None else spec_check) else 0, self.now, _csv(list(expected)), _csv(extras), _csv(full_missing),
             _csv(full_existing), _csv(['%s:%s' % t for t in tmps]), fstr)
         run.op(line, '%s %s' % (outcome, self.listing(after)))
 
